@@ -4,9 +4,30 @@ from vlib.symx import Violation, assume, native, pick, reached
 from vlib import universe as U
 
 # node state s in {0,1,2} is applied to the three independent dimensions at once:
-#   name 'x'  : 0 undefined, 1 Attribute, 2 Method with (node index + 1) required args
+#   name 'x'  : 0 undefined, 1 Attribute (on odd nodes a falsy Attribute subclass), 2 Method with (node index + 1) required args
 #   tag  't'  : 0 unset, 1 value = node index, 2 value None (a falsy value that is still a value)
 #   invariant : 0 none, 1 passing, 2 failing (raises Invalid('inv<node>'))
+
+
+def _group_class():
+    from zope.interface import Attribute
+
+    class Group(Attribute):
+        def __len__(self):
+            return 0
+    return Group
+
+
+class _LazyGroup:
+    cls = None
+
+    def __call__(self, doc):
+        if _LazyGroup.cls is None:
+            _LazyGroup.cls = _group_class()
+        return _LazyGroup.cls(doc)
+
+
+_Group = _LazyGroup()
 
 
 def _mk_attrs(i, s):
@@ -15,7 +36,9 @@ def _mk_attrs(i, s):
     from zope.interface.exceptions import Invalid
     d = {}
     if s == 1:
-        d['x'] = Attribute('x of %d' % i)
+        # odd nodes use a description that is false in a boolean context (a composite attribute with no members yet):
+        # "defined" means present, not truthy
+        d['x'] = (_Group if i % 2 else Attribute)('x of %d' % i)
     elif s == 2:
         ns = {}
         exec('def x(%s): pass' % ', '.join('p%d' % k for k in range(i + 1)), ns)
